@@ -167,6 +167,10 @@ pub(super) mod udp {
         type Error = anyhow::Error;
 
         fn encode(&mut self, (content, addr): DatagramPacket, dst: &mut BytesMut) -> anyhow::Result<()> {
+            if self.session.packet_id == u64::MAX {
+                // a packet id is never reused under one session key: the session ends instead of wrapping around
+                anyhow::bail!("[udp] packet id exhausted; session={}", self.session)
+            }
             self.session.increase_packet_id();
             self.codec.encode((content, addr, self.session.clone()), dst)
         }
